@@ -7,7 +7,7 @@ import re as _re
 from ..model import AnalysisError, Program
 from ..report import Run
 from ..skel import function_skeletons, quoted_spans, render, skeletons
-from ..symex import Const, CtxV, Hole, Lit, Opaque, SlotP, Str, Sym, show
+from ..symex import Const, CtxV, DictV, Hole, Lit, Opaque, SlotP, Str, Sym, show
 from ..symex import values_in
 from .c06 import paths
 
@@ -277,6 +277,59 @@ def check(program: Program, run: Run) -> None:
     QUOTED = {"str", "str-mixin Enum", "Enum(str value)", "dict", "list", "time", "date", "datetime", "UUID"}
     NO_SPECIAL = {"time", "date", "datetime", "UUID"}     # ISO text / hex digits: neither quote nor backslash can occur
 
+    # reference: MySQL string-literal escape sequences (manual, "String Literals"); any other \\x reads as x, except that
+    # \\% and \\_ keep their backslash outside a pattern context
+    MYSQL_ESCAPES = {"0": "\0", "'": "'", '"': '"', "b": "\b", "n": "\n", "r": "\r", "t": "\t", "Z": "\x1a", "\\": "\\"}
+
+    def _decodes_to(written: str, original: str) -> bool:
+        """does `written`, inside a literal of a backslash-escaping dialect, read back as `original`?"""
+        if written == original:
+            return True
+        if len(original) == 1 and len(written) == 2 and written[0] == "\\":
+            c_ = written[1]
+            if c_ in MYSQL_ESCAPES:
+                return MYSQL_ESCAPES[c_] == original
+            return c_ == original and c_ not in "%_"
+        return False
+
+    def _translate_table(t) -> dict:
+        """constant mapping of a str.translate() argument (str.maketrans({..}) / a dict literal), else the analysis stops"""
+        dv = None
+        stack_ = [t]
+        while stack_:
+            y = stack_.pop()
+            if isinstance(y, DictV):
+                dv = y
+                break
+            if isinstance(y, Sym):
+                stack_.extend(a for a in y.args if not isinstance(a, str))
+        if dv is None:
+            raise AnalysisError(f"unsupported construct: str.translate() table of an inlined value is not a constant mapping: {show(t, -8)[:80]}")
+        out_ = {}
+        for k_, v_ in dv.items:
+            if not (isinstance(k_, Const) and isinstance(v_, Const) and isinstance(k_.value, (str, int)) and (v_.value is None or isinstance(v_.value, str))):
+                raise AnalysisError(f"unsupported construct: non-constant entry in a str.translate() table: {show(k_, -8)}: {show(v_, -8)}")
+            out_[chr(k_.value) if isinstance(k_.value, int) else k_.value] = v_.value or ""
+        return out_
+
+    TEXT_TRANSFORMS = {".replace", ".translate", ".maketrans", ".isoformat", ".dumps", ".lower"}
+
+    def transforms_in(x, acc, d=0):
+        if d > 80 or isinstance(x, (str, int, float, bool, type(None))):
+            return
+        if isinstance(x, (tuple, list, frozenset)):
+            for i_ in x:
+                transforms_in(i_, acc, d + 1)
+            return
+        if isinstance(x, _Op) and x.name.startswith("."):
+            acc.add(x.name)
+        if isinstance(x, Sym) and x.kind == "call" and x.args and isinstance(x.args[0], str) and x.args[0].startswith("."):
+            acc.add(x.args[0])
+        if dataclasses.is_dataclass(x):
+            for fld in dataclasses.fields(x):
+                if fld.name not in ("src", "cond", "ctx", "recv"):
+                    transforms_in(getattr(x, fld.name), acc, d + 1)
+
     def sigs_in(x, acc, d=0):
         """`from` texts of the .replace(from, to) calls inside a value; doubling/escaping replacements only:
         a replacement whose `to` is not `from*2` (SQL doubling) is recorded as '<from>=>other'"""
@@ -295,6 +348,17 @@ def check(program: Program, run: Run) -> None:
             f_s, t_s = show(fr_, -8), show(to_, -8)
             doubled = (isinstance(fr_, Const) and isinstance(to_, Const) and isinstance(fr_.value, str) and to_.value == fr_.value * 2) or (f_s in t_s and "Mult 2" in t_s)
             acc.add(f_s if doubled else f_s + "=>other")
+            if not doubled and isinstance(fr_, Const) and isinstance(to_, Const) and isinstance(fr_.value, str) and isinstance(to_.value, str):
+                if not _decodes_to(to_.value, fr_.value):
+                    acc.add(f"undecodable!{fr_.value!r}->{to_.value!r}")
+        if isinstance(x, Sym) and x.kind == "call" and x.args and x.args[0] == ".translate" and len(x.args) >= 3:
+            for k_, v_ in _translate_table(x.args[2]).items():
+                if v_ == k_ * 2 and k_ in ("'", "\\"):
+                    acc.add(show(Const(k_), -8))
+                elif not _decodes_to(v_, k_):
+                    acc.add(f"undecodable!{k_!r}->{v_!r}")
+                else:
+                    acc.add("escape:" + repr(k_))
         if dataclasses.is_dataclass(x):
             for fld in dataclasses.fields(x):
                 if fld.name not in ("src", "cond", "ctx", "recv"):
@@ -344,6 +408,11 @@ def check(program: Program, run: Run) -> None:
             is_quoted_kind = kname in QUOTED or (kname not in KINDS_BASE and any(quoted_spans([p_ for p_ in fl if not (isinstance(p_, Lit) and not p_.text)])
                                                                                   for fl in paths(v, limit=64, opaque_leaf=False)))
             if is_quoted_kind:
+                tf: set = set()
+                transforms_in(v, tf)
+                if tf - TEXT_TRANSFORMS:
+                    raise AnalysisError(f"unsupported construct: value-kind cell {cell} applies text transform(s) {sorted(tf - TEXT_TRANSFORMS)} to the inlined "
+                                        f"value; whether the literal still decodes to the original is not decided for them")
                 allp = paths(v, limit=64, opaque_leaf=False, with_conds=True)
                 for fl, pconds in allp:
                     fl = [p_ for p_ in fl if not (isinstance(p_, Lit) and not p_.text)]
@@ -361,6 +430,11 @@ def check(program: Program, run: Run) -> None:
                         problems.append(("quote-unescaped", "reaches the quotes on some path without the quote character being doubled"))
                     if backslash_dialect and kname not in NO_SPECIAL and not (BS in pp or b_guard):
                         problems.append(("backslash-unescaped", "reaches the quotes on some path without backslashes being doubled although this wrapper doubles them for other kinds: a backslash swallows the next character (a trailing one un-terminates the literal)"))
+                    for sg in sorted(pp):
+                        if sg.startswith("undecodable!"):
+                            problems.append(("escape-not-decodable", f"is rewritten {sg[12:]} on some path, which the target dialect does not read back as the original character: the literal decodes to a different value"))
+                    if any(sg.startswith("escape:") for sg in pp) and not (BS in pp):
+                        problems.append(("backslash-unescaped", "gets backslash escape sequences on some path while a literal backslash in the value is not doubled"))
                     raw = [p_ for p_ in fl if isinstance(p_, Hole) and isinstance(p_.value, Sym) and p_.value.kind == "typed" and "Enum" in p_.value.args[1]]
                     if raw:
                         problems.append(("enum-format", "is formatted as the Enum member itself on some path (Enum.__format__ prints the member's name, not its value)"))
